@@ -1287,7 +1287,10 @@ class Compiler:
     def visit_OnError(self, node):
         body = []
 
-        fallback = identifier("__fallback")
+        # Each on-error element needs its own saved stream length: with
+        # nested handlers a shared variable would make the outer one
+        # truncate at the position the inner one saved.
+        fallback = identifier("__fallback", id(node))
         body += template("fallback = len(__stream)", fallback=fallback)
 
         self._enter_assignment((node.name, ))
